@@ -83,14 +83,14 @@ func ttlCheck(w *World, m *refmodel.Model, i int, op wire.Op, hist []wire.Op) (s
 						}
 					}
 					if readable {
-						return "outlives-expiry/" + t.name, fmt.Sprintf("%s still holds %q (%v) although the key is gone in the reference map", t.name, key, dl)
+						return clauseName("outlives-expiry", t.name, via), fmt.Sprintf("%s still holds %q (%v) although the key is gone in the reference map", t.name, key, dl)
 					}
 				}
 				continue
 			}
 			if len(dl) == 0 {
 				if t.must {
-					return "lost-before-expiry/" + t.name, fmt.Sprintf("%s does not hold %q although it must (deadline %d)", t.name, key, e.Deadline)
+					return clauseName("lost-before-expiry", t.name, via), fmt.Sprintf("%s does not hold %q although it must (deadline %d)", t.name, key, e.Deadline)
 				}
 				continue
 			}
@@ -117,12 +117,21 @@ func ttlCheck(w *World, m *refmodel.Model, i int, op wire.Op, hist []wire.Op) (s
 					if strings.HasSuffix(k, ".field") {
 						what = "metadata expiry field"
 					}
-					return "wrong-expiry/" + t.name + via, fmt.Sprintf("%s %s %q expires %s, the client last asked for %s", t.name, what, k, rel(d), rel(e.Deadline))
+					return clauseName("wrong-expiry", t.name, via), fmt.Sprintf("%s %s %q expires %s, the client last asked for %s", t.name, what, k, rel(d), rel(e.Deadline))
 				}
 			}
 		}
 	}
 	return "", ""
+}
+
+// clauseName: for append/prepend (which must leave the expiry alone) the three ways of getting the
+// expiry wrong are one clause, qualified by the command that last set the expiry.
+func clauseName(kind, tier, via string) string {
+	if via != "" {
+		return "expiry-not-kept/" + tier + via
+	}
+	return kind + "/" + tier
 }
 
 func ttlAlphabet(cfg Cfg) []wire.Op {
